@@ -106,6 +106,30 @@ func checkSKINormalised(p *core.Program, r *core.Report, R1 string, only map[str
 		fns = append(fns, fn)
 	}
 	sortFns(fns)
+	// exported Hub methods outside HubInterface that take a SKI (queries used by the SHIP layer and the
+	// application alike, e.g. the paired predicate): their map accesses must see the canonical spelling too
+	mapOnly := map[*ssa.Function]bool{}
+	if only == nil {
+		for _, fn := range p.FuncsOf("hub") {
+			if fn.Object() == nil || !fn.Object().Exported() || fn.Signature.Recv() == nil || entries[fn] != nil || fn.Parent() != nil {
+				continue
+			}
+			if core.NamedOf(recvType(fn)) != p.Named("hub", "Hub") {
+				continue
+			}
+			for j, pa := range fn.Params {
+				if j == 0 || !strings.EqualFold(pa.Name(), "ski") {
+					continue
+				}
+				if b, ok := pa.Type().Underlying().(*types.Basic); ok && b.Info()&types.IsString != 0 {
+					entries[fn] = append(entries[fn], j)
+					mapOnly[fn] = true
+					fns = append(fns, fn)
+				}
+			}
+		}
+		sortFns(fns)
+	}
 	for _, fn := range fns {
 		if only != nil && !only[fn.Name()] {
 			continue
@@ -113,6 +137,16 @@ func checkSKINormalised(p *core.Program, r *core.Report, R1 string, only map[str
 		for _, idx := range entries[fn] {
 			n++
 			res := t.From(fn, fn.Params[idx])
+			if mapOnly[fn] {
+				var kept []core.TaintHit
+				for _, h := range res.Hits {
+					if c, isCall := h.Sink.(*ssa.Call); isCall && c.Call.IsInvoke() {
+						continue // the SKI is handed back to the reader as it was given: not a lookup
+					}
+					kept = append(kept, h)
+				}
+				res.Hits = kept
+			}
 			key := "hub.Hub." + fn.Name() + " ski"
 			if len(res.Hits) == 0 {
 				r.OK(R1, key, p.Pos(fn.Pos()), "every SKI-keyed map access and reader callback reached from this parameter sees util.NormalizeSKI's result")
